@@ -47,6 +47,8 @@ def aesthetics(flux, invvar, method='traditional'):
             if goodpts.any():
                 newflux[~goodpts] = newflux[goodpts].mean()
         elif method == 'damp':
+            if badpts.all():
+                return flux
             l = 250  # damping length in pixels
             goodpts = invvar.nonzero()[0]
             nflux = flux.size
